@@ -57,6 +57,28 @@ def main():
         sh('git -C /repo checkout -- .')
     out['caught'] = out['check']['exit'] == 1
     print(json.dumps(out, indent=1))
+    if '--write-meta' in sys.argv:
+        notes = ''
+        try:
+            notes = open(os.path.join(sdir, 'NOTES.md')).read()
+        except OSError:
+            pass
+        meta_path = os.path.join(sdir, 'meta.json')
+        meta = {}
+        if os.path.exists(meta_path):
+            meta = json.load(open(meta_path))
+        meta.update({
+            'id': os.path.basename(sdir), 'property': prop,
+            'source': 'independent sub-agent given only the property text and a scratch worktree of /repo',
+            'what_it_needs_to_manifest': meta.get('needs_to_manifest') or 'see NOTES.md (written by the author of the change)',
+            'notes_excerpt': notes[:1200],
+            'confirmed': {k: out.get(k) for k in ('demo_without_patch', 'patch_applies', 'tests_with_patch', 'demo_with_patch')},
+            'what_was_run': ['harness/seedconfirm.py %s %s %s' % (os.path.relpath(sdir, '/verif'), prop, wt),
+                             'scratch worktree: demo.py without patch, git apply, pytest tests/unit tests/functional, demo.py with patch',
+                             'then: git -C /repo apply patch.diff; ./check %s --tier quick; git -C /repo checkout -- .' % prop],
+            'check_result': out['check'], 'caught': out['caught'],
+        })
+        json.dump(meta, open(meta_path, 'w'), indent=1)
     return 0
 
 
